@@ -443,3 +443,84 @@ def integer_typed_objects(tier, rng, rep):
                                 rep.fail("derived_data_coherent", f"{qname} after {hist}", {**inp, "query": qname, "history": hist}); return
             rep.attempt("integer_object_runs", inp, body)
             rep.case(key=(t, cls), nontrivial=True, sample=inp if t == 0 and cls == "Segment" else None)
+
+
+def _same_rows(a, b):
+    """rows projectively equal and finite; a row that was exactly zero (zero tangent vector) must stay exactly zero"""
+    a, b = np.asarray(a, dtype=float), np.asarray(b, dtype=float)
+    if a.shape != b.shape or not np.all(np.isfinite(a)):
+        return False
+    m = a[..., :, None] * b[..., None, :]
+    nz = np.all(np.any(a != 0, axis=-1) == np.any(b != 0, axis=-1))
+    return bool(nz and np.all(np.abs(m - np.swapaxes(m, -1, -2)) <= 1e-9 * max(1.0, np.max(np.abs(m)))))
+
+
+@bounded(P, "exactly_lightlike_vertices", functions=[HY + "Point.coords", HY + "Point.hyperboloid_coords", HY + "Point.distance", HY + "Point.origin_to", HY + "TangentVector.normalized",
+                                                      HY + "TangentVector.origin_to", HY + "TangentVector.angle", "geometry_tools/utils/core.py:normalize"],
+         note="objects with vertices whose stored representative is EXACTLY lightlike in floating point (ideal triangles, rays, Pythagorean null vectors, zero tangent vectors): "
+              "read-only queries leave stored primary and derived data, and the caller's arrays, projectively unchanged and finite")
+def exactly_lightlike_vertices(tier, rng, rep):
+    N = 40 if tier == 'thorough' else 10
+    rep.rule = ("null vectors (1, e_i), (1, -e_i), (5,3,4), (5,4,3), (13,5,12), (3,2,2,1), (2.5,1.5,2.0), random integer multiples; mixed with interior lattice points; classes Point / IdealPoint "
+                "(shapes (), (3,)), Segment (ray and ideal-ideal), Polygon (ideal triangle, one ideal vertex), TangentVector with zero / null vector; queries: coords in 5 models, "
+                "hyperboloid_coords, distance to / from, origin_to, get_edges, circle_parameters, normalized, angle; a query may refuse (raise) but never move data")
+    rep.bound = f"{N} rounds x 7 object kinds x 12 queries"
+    nulls = {2: [[1, 1, 0], [1, 0, 1], [1, -1, 0], [1, 0, -1], [5, 3, 4], [5, 4, -3], [13, 5, 12], [2.5, 1.5, 2.0], [-5, 3, 4]],
+             3: [[1, 1, 0, 0], [1, 0, 0, -1], [3, 2, 2, 1], [3, 1, -2, 2], [9, 4, 4, 7], [1.5, 1.0, 1.0, 0.5]]}
+
+    def null(n):
+        v = np.array(nulls[n][int(rng.integers(0, len(nulls[n])))], dtype=float)
+        return v * float(rng.choice([1, 1, 2, 3, 0.5]))
+
+    def inner(n):
+        sp = rng.integers(-3, 4, size=n).astype(float)
+        return np.concatenate([[np.sum(np.abs(sp)) + 1.0], sp])
+
+    queries = {
+        "coords_klein": lambda o, q: o.coords("klein"), "coords_poincare": lambda o, q: o.coords("poincare"), "coords_halfspace": lambda o, q: o.coords("halfspace"),
+        "coords_hyperboloid": lambda o, q: o.coords("hyperboloid"), "coords_projective": lambda o, q: o.coords("projective"),
+        "hyperboloid_coords": lambda o, q: o.hyperboloid_coords(),
+        "distance_to": lambda o, q: h.Point(o).flatten_to_unit().distance(h.Point(np.broadcast_to(q.proj_data, h.Point(o).flatten_to_unit().proj_data.shape).copy())),
+        "distance_from": lambda o, q: q.distance(h.Point(o).flatten_to_unit()[0]),
+        "origin_to": lambda o, q: h.Point(o).origin_to(), "get_edges": lambda o, q: o.get_edges().coords("klein"),
+        "circle_parameters": lambda o, q: o.flatten_to_unit().circle_parameters(model="poincare"),
+        "tangent_queries": lambda o, q: (o.normalized(), o.origin_to(), o.angle(h.TangentVector(o.point, np.eye(o.dimension + 1)[1]))),
+    }
+    for t in range(N):
+        n = 2 if t % 3 else 3
+        kinds = {
+            "IdealPoint": lambda: h.IdealPoint(null(n)), "Points": lambda: h.Point(np.array([null(n), inner(n), null(n)])),
+            "Ray": lambda: h.Segment(h.Point(np.array([inner(n), null(n)]))), "IdealSegment": lambda: (lambda v: h.Segment(h.Point(np.array([v, -2 * v * np.array([1] + [-1] * n)]))))(null(n)),
+            "IdealTriangle": lambda: h.Polygon(h.Point(np.array([[1, 1, 0], [1, 0, 1], [5, -3, -4]], dtype=float) * rng.choice([1., 2.], size=(3, 1)))) if n == 2 else None,
+            "OneIdealVertex": lambda: h.Polygon(h.Point(np.array([null(n), inner(n), inner(n) * np.array([1] + [-1] * n)]))),
+            "ZeroTangent": lambda: h.TangentVector(h.Point(inner(n)), np.zeros(n + 1) if t % 2 else null(n)),
+        }
+        for kind, mk in kinds.items():
+            for qname, f in queries.items():
+                state = rng.bit_generator.state
+                with np.errstate(all='ignore'):
+                    o = mk()
+                    if o is None:
+                        continue
+                    rng.bit_generator.state = state
+                    twin = mk()
+                q = h.Point(inner(n) if rng.random() < 0.6 else null(n))
+                q_before = np.array(q.proj_data, copy=True)
+                inp = {"kind": kind, "n": n, "query": qname, "proj_data": np.asarray(o.proj_data).tolist()}
+                p_before = np.array(o.proj_data, dtype=float, copy=True)
+                a_before = None if o.aux_data is None else np.array(o.aux_data, dtype=float, copy=True)
+                try:
+                    with np.errstate(all='ignore'):
+                        f(o, q)
+                except Exception:
+                    pass                      # the query may not exist for this class, or refuse ideal input; it must still not move anything
+                if not _same_rows(o.proj_data, p_before):
+                    rep.fail("query_does_not_move_the_object", f"{kind}.{qname}: stored data {np.asarray(o.proj_data).tolist()} was {p_before.tolist()}", inp)
+                elif a_before is not None and not (np.shape(o.aux_data) == a_before.shape and np.all(np.isfinite(np.asarray(o.aux_data, dtype=float)))
+                                                   and _same_rows(np.asarray(o.aux_data).reshape(-1, a_before.shape[-1]), np.asarray(twin.aux_data, dtype=float).reshape(-1, a_before.shape[-1]))):
+                    rep.fail("derived_data_coherent", f"{kind}.{qname}: derived data {np.asarray(o.aux_data).tolist()} vs recomputed {np.asarray(twin.aux_data).tolist()}", inp)
+                if not _same_rows(q.proj_data, q_before):
+                    rep.fail("query_does_not_move_the_argument", f"{kind}.{qname}: argument {np.asarray(q.proj_data).tolist()} was {q_before.tolist()}", inp)
+                rep.case(key=(t, kind, qname), nontrivial=True, sample=inp if (t, kind, qname) == (0, "Ray", "coords_hyperboloid") else None)
+                if len(rep.failures) >= 3:
+                    return
